@@ -1,5 +1,5 @@
 #!/usr/bin/env python3
-"""seedcheck.py <PROP> <k> [--checks C01,C06] : confirm a sub-agent's seeded change and run our checks on it.
+"""seedcheck.py <PROP> <k> [--checks C01,C06] [--src dir] [--as k2] [--place f=dir] [--nocheck] : confirm a sub-agent's seeded change and run our checks on it.
 Inputs: /tmp/wt/<PROP>-out/{patch<k>.diff, demo<k>/, meta<k>.json}
 1. fresh worktree of /repo HEAD: apply patch, existing suite passes, stack packages build with -tags verif
 2. demo fails with the patch, passes without it
@@ -81,7 +81,8 @@ if confirmed and "--nocheck" not in sys.argv:
     report["detected"] = any(v["exit"] == 1 and v["violations"] > 0 for v in report["checks"].values())
 print(json.dumps(report, indent=1))
 if confirmed:
-    d = f"/verif/seeded/{prop}-{k}"; shutil.rmtree(d, ignore_errors=True); os.makedirs(d)
+    outk = sys.argv[sys.argv.index("--as")+1] if "--as" in sys.argv else k
+    d = f"/verif/seeded/{prop}-{outk}"; shutil.rmtree(d, ignore_errors=True); os.makedirs(d)
     shutil.copy(patch, d + "/patch.diff"); shutil.copytree(demo, d + "/demo")
     m = dict(meta); m.update({"breaks_property": prop, "confirmed": {x: report.get(x) for x in ["suite_passes_with_patch","builds_with_tag","demo_fails_with_patch","demo_passes_without_patch"]}, "what_i_ran": [SUITE, BUILD, meta["demo_cmd"] + " (with and without the patch, in a scratch worktree)"] + [f"./check {c} (patch applied to /repo, reverted afterwards)" for c in checks], "our_checks": report["checks"], "detected_by_quick": report.get("detected")})
     json.dump(m, open(d + "/meta.json", "w"), indent=1)
